@@ -1,6 +1,6 @@
 """C12 Outgoing notification queue is a fair priority queue (three structural clauses)."""
 from .lib.match import *
-from .C11 import pair_first
+from .C11 import pair_first, notification_not_blocked
 
 SELECT = r'^bluetoe::(notification_queue|details::notification_queue_impl|details::notification_queue_impl_base)::'
 UNITS = lambda u: u in ('w_inst_att',) or u.startswith('t_notification_queue') or u.startswith('t_att_outgoing')
@@ -15,37 +15,8 @@ META = {
 }
 
 
-def always_returns(n):
-    """every path through statement n ends in a return"""
-    if n is None:
-        return False
-    if n.k == 'ReturnStmt':
-        return True
-    if n.k == 'CompoundStmt':
-        return bool(n.c) and always_returns(n.c[-1])
-    if n.k == 'IfStmt':
-        return always_returns(n.child('then')) and always_returns(n.child('else'))
-    return False
-
-
 def run(chk, facts, tier):
-    chk.rule('notification-not-blocked', 'both dequeue implementations: a pending notification of an entry is returned unless something else is returned for that entry - every `if` whose else branch '
-             'holds the `return {notification, ..}` returns on all paths of its then branch (a held-back indication does not hide the notification)', floor=2)
-    for fn in variants(facts, Q + 'dequeue_indication_or_confirmation', chk):
-        for r in fn.returns():
-            first, il = pair_first(r)
-            if first is None or first.n != 'notification':
-                continue
-            bad = None
-            for a, br in enclosing_ifs(r):
-                if br == 'else' and not always_returns(a.child('then')):
-                    bad = a
-            # the notification test itself
-            g = [c for c, o in must_hold(r) if o is True and any(x.k in REF_KINDS and x.n == 'notification_bit' for x in c.walk())]
-            ok = bad is None and bool(g)
-            chk.instance('notification-not-blocked', fn, 'return {notification, ..} (impl at line %d)' % fn.line, ok,
-                         '' if ok else ('the notification is only considered when (%s) is false, but that branch does not always dequeue something: a pending notification stays in the queue while an indication of the same characteristic waits for a confirmation' % bad.child('cond').text()[:70]
-                                        if bad is not None else 'the notification return is not selected by the notification bit'), node=r, key='notification@%s' % ('single' if fn.line > 280 else 'general'))
+    notification_not_blocked(chk, facts)
     chk.rule('state-capacity', 'both queue implementations keep one notification bit and one indication bit per characteristic (distinct single-bit masks); queue_notification/queue_indication set exactly their bit', floor=2)
     chk.rule('newly-queued-result', 'add(): the result is (state & bit) == 0 evaluated before the bit is or-ed in', floor=1)
     chk.rule('priority-chaining', 'notification_queue_impl_base::dequeue returns the own level\'s entry when it is not empty and consults the next level (offset + Size) only otherwise', floor=1)
